@@ -44,6 +44,9 @@ type Engine struct {
 	nonNilGlobals   map[*types.Var]bool
 	distinctGlobals map[*types.Var]bool
 	idxVars         map[*ast.RangeStmt]*types.Var
+	contentMutated  map[*types.Var]bool
+	globalInits     map[*types.Var]ast.Expr
+	globalInitPkg   map[*types.Var]*Pkg
 
 	specFuns   map[string]specFun
 	specConsts map[string]string
@@ -56,6 +59,7 @@ func newEngine(repo, verif string) *Engine {
 	return &Engine{repo: repo, verif: verif, contracts: map[string]*Contract{}, funcs: map[string]*funcInfo{}, funcByObj: map[*types.Func]*funcInfo{},
 		pkgByName: map[string]*types.Package{}, boxedVars: map[*types.Var]bool{}, constGlobals: map[*types.Var]bool{},
 		nonNilGlobals: map[*types.Var]bool{}, distinctGlobals: map[*types.Var]bool{}, idxVars: map[*ast.RangeStmt]*types.Var{},
+		contentMutated: map[*types.Var]bool{}, globalInits: map[*types.Var]ast.Expr{}, globalInitPkg: map[*types.Var]*Pkg{},
 		specFuns: map[string]specFun{}, specConsts: map[string]string{}, heapSorts: map[string]string{}}
 }
 
@@ -184,6 +188,18 @@ func (e *Engine) scanGlobals() {
 				if v, ok := info.Uses[l.Sel].(*types.Var); ok {
 					assigned[v] = true
 				}
+			case *ast.IndexExpr:
+				// m[k] = v on a package-level map / slice: its contents are mutable
+				switch b := unparen(l.X).(type) {
+				case *ast.Ident:
+					if v, ok := info.Uses[b].(*types.Var); ok {
+						e.contentMutated[v] = true
+					}
+				case *ast.SelectorExpr:
+					if v, ok := info.Uses[b.Sel].(*types.Var); ok {
+						e.contentMutated[v] = true
+					}
+				}
 			}
 		}
 		for _, f := range p.Syntax {
@@ -194,6 +210,8 @@ func (e *Engine) scanGlobals() {
 						for i, n := range vs.Names {
 							if v, ok := info.Defs[n].(*types.Var); ok && i < len(vs.Values) && len(vs.Values) == len(vs.Names) {
 								inits[v] = vs.Values[i]
+								e.globalInits[v] = vs.Values[i]
+								e.globalInitPkg[v] = p
 							}
 						}
 					}
@@ -602,10 +620,72 @@ func (e *Engine) onSend(c *Ctx, s *State, x *ast.SendStmt, ch, v Value) {
 	recv := asInt(c.eval(se.X, s))
 	m := c.heapGet(s, "X.delivered", sA1)
 	c.heapSet(s, "X.delivered", sA1, store(m, recv, add(sel(m, recv), "1")))
-	c.frameWrites["X.delivered"] = true
+	c.frameEffect(s, "X.delivered")
 	c.note("a send on call.ResultChan() counts as one delivery to that call (ghost X.delivered); blocking is not modelled")
 }
-func (e *Engine) onGo(c *Ctx, s *State, x *ast.GoStmt)                    {}
+// onGo: `go f(args)`: the spawned function's preconditions are obligations of the spawner (what it hands over must be in
+// the required state); the contract's `at spawn ghost ...` clauses describe what the spawner gives up. The body is not run.
+func (e *Engine) onGo(c *Ctx, s *State, x *ast.GoStmt) {
+	var callee *types.Func
+	var recv Value
+	switch f := unparen(x.Call.Fun).(type) {
+	case *ast.Ident:
+		callee, _ = c.info().Uses[f].(*types.Func)
+	case *ast.SelectorExpr:
+		if sel, ok := c.info().Selections[f]; ok && sel.Kind() == types.MethodVal {
+			callee = sel.Obj().(*types.Func)
+			recv = c.eval(f.X, s)
+		} else if o, ok := c.info().Uses[f.Sel].(*types.Func); ok {
+			callee = o
+		}
+	}
+	if callee == nil {
+		c.abstractNote(x.Pos(), "go statement with an unresolved function")
+		return
+	}
+	key := funcKey(callee)
+	k := e.contracts[key]
+	if k == nil {
+		c.note("go " + key + ": no contract, nothing is checked about what the goroutine is handed")
+		return
+	}
+	c.calleesUsed[key] = true
+	var args []Value
+	for _, a := range x.Call.Args {
+		args = append(args, c.eval(a, s))
+	}
+	sig := callee.Type().(*types.Signature)
+	env := c.calleeEnv(k, sig, callee, recv, args, s)
+	for _, r := range k.Requires {
+		g := c.cevalBoolEnv(r.Expr, env)
+		c.oblige(s, "pre:go:"+key, r.Text, x.Pos(), g, r.Tags)
+	}
+	for _, a := range k.Ats["spawn"] {
+		if a.Kind != "ghost" {
+			continue
+		}
+		be, ok := a.Expr.(*ast.BinaryExpr)
+		if !ok || be.Op != token.EQL {
+			continue
+		}
+		v, _ := env.eval(be.Y)
+		ie, ok := be.X.(*ast.IndexExpr)
+		if !ok {
+			continue
+		}
+		name, ok := ie.X.(*ast.Ident)
+		if !ok {
+			continue
+		}
+		iv, _ := env.eval(ie.Index)
+		arr := c.heapGet(s, "X."+name.Name, sA1)
+		c.heapSet(s, "X."+name.Name, sA1, store(arr, asInt(iv), asInt(v)))
+		c.frameEffect(s, "X."+name.Name)
+	}
+	if c.atHit == nil {
+		c.atHit = map[string]bool{}
+	}
+}
 // onClose: ghost X.closed[ch] = 1; closing a nil or already closed channel panics.
 func (e *Engine) onClose(c *Ctx, s *State, x *ast.CallExpr, ch Value) {
 	chv := asInt(ch)
@@ -614,7 +694,7 @@ func (e *Engine) onClose(c *Ctx, s *State, x *ast.CallExpr, ch Value) {
 		c.oblige(s, "close", c.text(x), x.Pos(), and(not(eq(chv, "0")), eq(sel(m, chv), "0")), c.panicTags)
 	}
 	c.heapSet(s, "X.closed", sA1, store(m, chv, "1"))
-	c.frameWrites["X.closed"] = true
+	c.frameEffect(s, "X.closed")
 }
 // onLock: ghost count of mutexes held by the executing goroutine (pairing of Lock/Unlock on every path; "emission under a
 // lock" obligations).
@@ -849,6 +929,7 @@ func (e *Engine) verifyFunc(key string) (c *Ctx, err error) {
 		return c, nil
 	}
 	s.assume(le("0", c.heapGet(s, "X.nheld", sInt))) // ghost count of held mutexes
+	c.frameInit()
 	c.smoke(s, "entry", fi.decl.Body.Lbrace)
 	exits := c.execBlock(fi.decl.Body.List, s)
 	nret := 0
@@ -882,6 +963,9 @@ func (e *Engine) verifyFunc(key string) (c *Ctx, err error) {
 		}
 	}
 	for _, label := range sortedKeys(k.Ats) {
+		if label == "spawn" {
+			continue
+		}
 		if !c.atHit[label] {
 			c.bindingErrors = append(c.bindingErrors, fmt.Sprintf("at-clause label %q matches no program point of %s", label, key))
 		}
@@ -949,7 +1033,7 @@ func (c *Ctx) atClauses(s *State, label string, pos token.Pos) {
 				arr := c.heapGet(s, key, sA2)
 				c.heapSet(s, key, sA2, store(arr, idxs[0], store(sel(arr, idxs[0]), idxs[1], v)))
 			}
-			c.frameWrites[key] = true
+			c.frameEffect(s, key)
 		default:
 			c.bindingErrors = append(c.bindingErrors, "unsupported at-clause kind "+a.Kind)
 		}
@@ -965,29 +1049,14 @@ func (c *Ctx) smoke(s *State, what string, pos token.Pos) {
 		Pos: c.eng.fset.Position(pos), Smoke: true, decls: c})
 }
 
-// frameCheck: every heap key written outside fresh objects, and every effect of a callee, must be covered by `modifies`.
-func (c *Ctx) frameCheck(pos token.Pos) {
+// frameInit expands contents(..)/object(..) entries of the modifies clause into heap keys (approximation: any object or
+// array of that type) for the frame check.
+func (c *Ctx) frameInit() {
 	k := c.con
-	if !k.HasModifies {
-		return // no frame promised: callers havoc everything
+	if !k.HasModifies || c.decl == nil {
+		return
 	}
-	covered := func(key string) bool {
-		for _, m := range k.Modifies {
-			if m == "all" || m == key {
-				return true
-			}
-			if strings.HasPrefix(m, "contents(") || strings.HasPrefix(m, "object(") {
-				continue
-			}
-			prefix := strings.TrimSuffix(m, "*")
-			if strings.HasPrefix(key, prefix) && (strings.HasSuffix(m, "*") || len(key) == len(prefix) || key[len(prefix)] == '$' || key[len(prefix)] == '.' || key[len(prefix)] == '#') {
-				return true
-			}
-		}
-		return false
-	}
-	// contents(p)/object(p) entries cover the corresponding key for writes through that parameter: approximated by key
-	for _, m := range k.Modifies {
+	for _, m := range append([]string(nil), k.Modifies...) {
 		if strings.HasPrefix(m, "contents(") || strings.HasPrefix(m, "object(") {
 			name := m[strings.Index(m, "(")+1 : len(m)-1]
 			var t types.Type
@@ -1003,36 +1072,55 @@ func (c *Ctx) frameCheck(pos token.Pos) {
 				}()
 			}
 			if t != nil {
-				// (approximation: the frame check accepts writes to any object / array of that type)
 				switch u := t.Underlying().(type) {
 				case *types.Slice:
-					k.Modifies = append(k.Modifies, memKey(u.Elem()))
+					c.frameKeys = append(c.frameKeys, memKey(u.Elem()))
 				case *types.Pointer:
-					k.Modifies = append(k.Modifies, "F."+typeKey(u.Elem())+".*")
+					c.frameKeys = append(c.frameKeys, "F."+typeKey(u.Elem())+".*")
 				}
 			}
-		}
-	}
-	var bad []string
-	for key := range c.frameWrites {
-		if strings.HasPrefix(key, "L.") || key == "X.nheld" {
 			continue
 		}
-		if !covered(key) {
-			bad = append(bad, key)
-		}
-	}
-	for _, m := range c.frameCallee {
-		if !covered(m) {
-			bad = append(bad, "callee:"+m)
-		}
-	}
-	sort.Strings(bad)
-	for _, b := range bad {
-		st := &State{}
-		c.oblige(st, "frame", b, pos, "false", nil)
+		c.frameKeys = append(c.frameKeys, m)
 	}
 }
+
+func (c *Ctx) frameCovered(key string) bool {
+	if strings.HasPrefix(key, "L.") || key == "X.nheld" || key == "X.alloc" {
+		return true
+	}
+	for _, m := range c.frameKeys {
+		if m == "all" || m == key {
+			return true
+		}
+		if keyMatches(key, m) {
+			return true
+		}
+		// a pattern in the callee's modifies (ending in *) is covered by an equal or wider pattern
+		if strings.HasSuffix(key, "*") && strings.HasSuffix(m, "*") && strings.HasPrefix(strings.TrimSuffix(key, "*"), strings.TrimSuffix(m, "*")) {
+			return true
+		}
+	}
+	return false
+}
+
+// frameEffect: an effect on heap key `key` happens on the path of state s; it must be covered by `modifies`.
+// Path-sensitive: the obligation is `false` under the path condition, so effects on infeasible paths do not count.
+func (c *Ctx) frameEffect(s *State, key string) {
+	if c.con == nil || !c.con.HasModifies || c.dry > 0 || s == nil {
+		return
+	}
+	if c.frameCovered(key) {
+		return
+	}
+	pos := c.curPos
+	if c.decl != nil && pos == token.NoPos {
+		pos = c.decl.Body.Rbrace
+	}
+	c.oblige(s, "frame", key, pos, "false", nil)
+}
+
+func (c *Ctx) frameCheck(pos token.Pos) {}
 
 // entryParams: in postconditions parameter names denote the values passed by the caller (Go parameters are mutable locals).
 func (c *Ctx) entryParams() map[string]bound {
